@@ -113,7 +113,7 @@ func gangAll(spec Spec) bool {
 	for _, p := range spec.Tiers[0] {
 		if p.Kind == KGang {
 			for _, a := range spec.Actions {
-				if (a == 1 && !p.Pre) || (a == 2 && !p.Rec) {
+				if ((a == 1 || a == 3) && !p.Pre) || (a == 2 && !p.Rec) {
 					return false
 				}
 			}
